@@ -836,8 +836,11 @@ func pendingErrors(m *ServerModel, root *FuncInfo, effectful func(key string) bo
 		if len(as.Rhs) == 1 {
 			if call, ok := unparen(as.Rhs[0]).(*ast.CallExpr); ok {
 				if k := calleeKey(info, call); effectful(k) {
-					if obj := objOf(info, as.Lhs[len(as.Lhs)-1]); obj != nil && isErrorType(obj.Type()) {
+					last := unparen(as.Lhs[len(as.Lhs)-1])
+					if obj := objOf(info, last); obj != nil && isErrorType(obj.Type()) {
 						s[obj] = k
+					} else if id, isId := last.(*ast.Ident); isId && id.Name == "_" {
+						s[discardedError] = k // thrown away: can never be tested
 					}
 				}
 			}
@@ -920,3 +923,6 @@ func pendingErrors(m *ServerModel, root *FuncInfo, effectful func(key string) bo
 	a.Run(root.Decl, pset{})
 	return out, seen
 }
+
+// discardedError stands for an error result that was assigned to the blank identifier.
+var discardedError types.Object = types.NewVar(token.NoPos, nil, "_", types.Universe.Lookup("error").Type())
